@@ -36,8 +36,9 @@ pub struct Context<const N: usize> {
 
 impl<const N: usize> Context<N> {
     pub fn new(key: [u8; N], identity_keys: Vec<[u8; N]>, kind: CipherKind, user_manager: Option<Arc<ServerUserManager<N>>>) -> Self {
-        // a timestamp up to 30 s ahead stays acceptable for 60 s, and so long its salt must be remembered
-        let nonce_cache = Mutex::new(LruCache::with_expiry_duration_and_capacity(Duration::from_secs(60), 102400));
+        // a timestamp up to 30 s ahead stays acceptable until the clock reads 30 s past it; timestamps count whole
+        // seconds, so that is up to 61 s of real time, and so long its salt must be remembered
+        let nonce_cache = Mutex::new(LruCache::with_expiry_duration_and_capacity(Duration::from_secs(61), 102400));
         Self { key, identity_keys, kind, user_manager, nonce_cache }
     }
 
